@@ -414,6 +414,8 @@ class World:
                         self.mstate[key] = "pending"
                     self.ev("suspension_finished")
             # 4. tick active containers in list order
+            obs_failed_now = {r.container_id for r in observed if r.pool_id == k and r.error is not None}
+            self.learn_ids(k, observed)
             tick_info = []
             for mc in self.active[k]:
                 t = mc.ticks[mc.j]
@@ -434,7 +436,15 @@ class World:
                     over_own = None if near(t.demand, mc.ram) else t.demand > mc.ram
                 finished = False
                 if over_own is None:
-                    over_own = self.choose([False, True])
+                    # within float rounding of the container's own limit: either outcome is admissible, so the
+                    # model follows what was observed instead of branching (no enumeration needed)
+                    if t.ends_op:
+                        # the two branches differ in whether this operator completed in this tick
+                        pi_, oi_ = mc.keys[t.op]
+                        over_own = sut.state_of(self.ops[pi_][oi_]) != "completed"
+                    else:
+                        over_own = mc.cid in obs_failed_now
+                    self.ev("own_limit_float_boundary_followed_observation")
                 if not over_own:
                     if t.ends_op:
                         self.mstate[mc.keys[t.op]] = "completed"
@@ -451,7 +461,6 @@ class World:
             for r in observed:
                 if r.pool_id == k:
                     (obs_failed if r.error is not None else obs_ok).add(r.container_id)
-            self.learn_ids(k, observed)
             conts = []
             for mc, t, over_own, finished in tick_info:
                 conts.append({"id": mc.cid, "demand": mc.usage if not finished else 0.0,
